@@ -596,6 +596,7 @@ pub fn items(tier: Tier) -> Vec<DxItem> {
         let p = OpenRaceParams { noise: noise.clone() };
         let mut it = DxItem::new(json!({"part": "inbound-during-open", "noise": noise.iter().map(|(c, i)| format!("{}{}", cmd_name(*c), i)).collect::<Vec<_>>()}), make_open_race(p), b);
         it.exec.long_yield = 4;
+        it.exec.quiesce = true;
         v.push(it);
     }
     v
